@@ -25,6 +25,29 @@ CLAIMED = {
         design='5.1 C04', technique='Coq proof (stack invariant, induction over the run) + differential correspondence of the extracted model',
         note=COMMON_NOTE + ' Modelled, not verified: layout.py 45-378, doctypes.py normalize methods, render.py. '
              'The lazy FlatChoice cells are modelled without a store (argument in DESIGN.md 3.1a, exercised by the correspondence run).'),
+    'C05': dict(
+        text='Theorems C05_fits_sound / C05_flat_fits (Proofs/FirstLine.v, FlatFits.v): for every classic-algebra '
+             'document, width, ribbon and strategy, at every step of every run at which the model lays a group out '
+             'flat, the column at which the group starts plus the width of everything then really emitted up to the '
+             'next line break is <= min(width, indent + ribbon) (simulation between the look-ahead and the machine, '
+             'induction on the look-ahead fuel; no size bound). The unguarded reading (text of the group after a '
+             'hardline inside it) is refuted by a vm_compute witness = open finding. Model tied to layout.py by SDoc '
+             'stream equality at every width 1..8/12 (exact fit, fit+-1); the reference matcher checks the claim on '
+             'the implementation output.',
+        design='5.1 C05', technique='Coq proof (look-ahead/machine simulation) + differential correspondence of the extracted model',
+        note=COMMON_NOTE + ' Modelled, not verified: layout.py 45-378. ribbon_width = max(0,min(w,round(frac*w))) is '
+             'computed by the harness independently of layout.py:221 and passed to the model as an integer.'),
+    'C06': dict(
+        text='Theorems C06_broken_iff_not_fits, C06_fits_complete, C06_single_line_stable (Proofs/SingleLine.v, '
+             'Stable.v): the decision of a group is exactly the fitting predicate; on every run that finishes without '
+             'a line break the predicates answer "fits" for every budget >= the remaining text, for every page width, '
+             'ribbon, nesting level and strategy; hence a document without forced breaks (annotations allowed) whose '
+             'layout is a single line of L columns is laid out as the same stream at every width and ribbon >= L '
+             '(lock-step induction over two runs; unbounded). Value-level strings (contextual documents) are covered '
+             'by the printer-level correspondence, not by this theorem.',
+        design='5.1 C06', technique='Coq proof (completeness of the look-ahead on single-line runs, two-run lock-step) + differential correspondence',
+        note=COMMON_NOTE + ' Hypotheses of the stability theorem: no always_break/align/fill/contextual, nest offsets >= 0 '
+             '(what the bundled printers build apart from strings).'),
 }
 
 PENDING = 'check not built yet in this round (see DESIGN.md section 8 for the order of work)'
